@@ -41,7 +41,8 @@ RULE = ("chains of 1..5 templates; every level draws, per member name of a share
         "nested in named/anonymous blocks or at body level, module attributes from {ax,ay,az}, a <%page args> "
         "signature over {pa,pb}, defs with 0-2 parameters (one signature per name along the chain, rarely deviating), module "
         "attribute values that are numbers or None/''/False/0, bodies and member contents made of literal tags [tN] (N unique per chain), "
-        "calls with content (<%call>/<%self:..> to a def writing caller.body() once) holding tags, member calls and anonymous blocks, calls "
+        "calls with content (<%call>/<%self:..> to a def writing caller.body() once) holding tags, member calls and anonymous blocks, in a third of the cases "
+        "1-2 further chains over the same member names that templates of the main chain (bodies, blocks, defs) and of each other <%include>, calls "
         "self/next/parent/local.X(), X.body(pos, kw), ${X.attr.a}, anonymous blocks; inherit written as a literal, "
         "as one of five expression forms (two read the target from self.attr while the chain is being built, one after a hasattr member probe on the partial chain), or as an expression evaluating to None; 5% of the references are "
         "deliberately invalid (next at T0, parent at the base, missing member, recursion); put_string lookups, "
@@ -56,6 +57,7 @@ ASSUMPTIONS = [
     "def parameters are plain names with optional integer defaults (no *args/**kw/keyword-only); blocks take no declared arguments",
     "render() data does not use the names self/next/parent/local",
     "RecursionError of CPython is compared with fuel exhaustion of the model (both only on non-terminating call patterns)",
+    "included chains have no <%page args> and <%include> passes no args= (argument passing of includes is C07's)",
     "a <%call> is always a call to a def consisting of ${caller.body()} (content written exactly once, in place); other callees are C05's",
 ]
 TRUSTED_EXTRA = [
@@ -108,12 +110,18 @@ class Writer:
         return "".join(self.parts)
 
 
-def uri_of(i, fb):
-    return ("/t%d.html" % i) if fb else ("t%d" % i)
+def uri_of(i, fb, pre=""):
+    return ("/%st%d.html" % (pre, i)) if fb else ("%st%d" % (pre, i))
 
 
-def target_of(i, fb):
-    return ("t%d.html" % i) if fb else ("t%d" % i)
+def target_of(i, fb, pre=""):
+    return ("%st%d.html" % (pre, i)) if fb else ("%st%d" % (pre, i))
+
+
+def subcases(case):
+    """the chains of the library other than the main one, as cases of their own (entry k is named k<k>t<i>)"""
+    return [{"levels": c["levels"], "fb": case.get("fb", False), "pre": "k%d" % k, "data": []}
+            for k, c in enumerate(case.get("lib", []), 1)]
 
 
 def call_src(n):
@@ -133,6 +141,8 @@ def emit_nodes(nodes, w, sig, where):
             w.w(call_src(n))
         elif k == "a":
             w.w("{v${%s.attr.%s}}" % (REFNAME[n["r"]], n["x"]))
+        elif k == "i":
+            w.w('<%%include file="%s"/>' % target_of(0, getattr(w, "fb", False), "k%d" % n["t"]))
         elif k == "g":
             if where == "body":
                 w.w("{g" + ",".join("%s=${%s}" % (p, p) for p, _ in sig) + ";${list(pageargs.items())}}")
@@ -175,14 +185,16 @@ def has_calltag(nodes):
 def level_source(case, i):
     lv = case["levels"][i]
     fb = case.get("fb", False)
+    pre = case.get("pre", "")
     w = Writer()
+    w.fb = fb
     hnl = "\n" if lv.get("hnl") else ""
     inh = lv["inh"]
     if inh == "S":
-        w.w('<%%inherit file="%s"/>%s' % (target_of(i + 1, fb), hnl))
+        w.w('<%%inherit file="%s"/>%s' % (target_of(i + 1, fb, pre), hnl))
     elif inh == "D":
         form = lv.get("form", 0)
-        tgt = target_of(i + 1, fb)
+        tgt = target_of(i + 1, fb, pre)
         if form == 0:
             w.w('<%%inherit file="${\'%s\' + \'%s\'}"/>%s' % (tgt[:1], tgt[1:], hnl))
         elif form == 1:
@@ -246,6 +258,8 @@ def enc_nodes(nodes, out):
             out += ["c", n["r"], enc(n["x"]), enc_vals(n.get("pos", [])), enc_kws(n.get("kw", []))]
         elif k == "a":
             out += ["a", n["r"], enc(n["x"])]
+        elif k == "i":
+            out += ["i", str(n["t"])]
         elif k == "g":
             out.append("g")
         elif k == "d":
@@ -285,6 +299,12 @@ def enc_levels(case):
 
 def render_req(case):
     sources(case)            # fills in the block lines
+    if case.get("lib"):
+        subs = subcases(case)
+        for sc_ in subs:
+            sources(sc_)
+        return "inh renderlib 6 %d %s C %s" % (FUEL, enc_kws(case.get("data", [])),
+                                                " C ".join([enc_levels(case)] + [enc_levels(sc_) for sc_ in subs]))
     return "inh render %d %s %s" % (FUEL, enc_kws(case.get("data", [])), enc_levels(case))
 
 
@@ -371,6 +391,7 @@ class Impl:
     def lookup(self, case, srcs=None):
         from mako.lookup import TemplateLookup
         srcs = srcs or sources(case)
+        subs = subcases(case)
         if case.get("fb"):
             if self.tmp is None:
                 self.tmp = tempfile.mkdtemp(prefix="c06_")
@@ -378,9 +399,20 @@ class Impl:
             for i, s in enumerate(srcs):
                 with open(os.path.join(d, "t%d.html" % i), "w", encoding="utf-8") as f:
                     f.write(s)
+            for sc_ in subs:
+                for i, s in enumerate(sources(sc_)):
+                    with open(os.path.join(d, "%st%d.html" % (sc_["pre"], i)), "w", encoding="utf-8") as f:
+                        f.write(s)
             md = os.path.join(d, "mods") if case.get("fb") == 2 else None
             return TemplateLookup(directories=[d], module_directory=md), d
         lk = TemplateLookup()
+        for sc_ in subs:
+            ssrcs = sources(sc_)
+            e_ = 1
+            while e_ <= len(ssrcs) and sc_["levels"][e_ - 1]["inh"] in ("S", "D"):
+                e_ += 1
+            for i, s in enumerate(ssrcs[:e_]):
+                lk.put_string(uri_of(i, False, sc_["pre"]), s)
         # put_string compiles at once; templates beyond the end of the chain (after an inherit evaluating to None)
         # are never looked up by a render, so they are not put (a file-backed lookup holds them all, uncompiled)
         eff = 1
@@ -495,7 +527,11 @@ def rules_compile_fault(nodes):
 
 
 class Rules:
-    def __init__(self, case):
+    def __init__(self, case, lib=None, shared=None):
+        # an included template is rendered like a top-level one: by a Rules object of its own chain (nothing of the
+        # includer's chain is visible through self/next/parent/local); only the work budget is shared
+        self.lib = subcases(case) if lib is None else lib
+        self.bud = shared.bud if shared is not None else [40000]
         lv = case["levels"]
         n = 1
         while n <= len(lv) and lv[n - 1]["inh"] in ("S", "D"):
@@ -504,7 +540,6 @@ class Rules:
         self.levels = lv[:min(n, len(lv))]
         self.m = len(self.levels) - 1
         self.case = case
-        self.budget = 40000
         self.members = []
         for l in self.levels:
             d = {}
@@ -560,8 +595,8 @@ class Rules:
             raise OErr("recursion")
         out = []
         for n in nodes:
-            self.budget -= 1
-            if self.budget < 0:
+            self.bud[0] -= 1
+            if self.bud[0] < 0:
                 raise Discard()
             k = n["k"]
             if k == "t":
@@ -570,6 +605,10 @@ class Rules:
                 out.append(("g", bound, tuple(extra or ())))
             elif k == "d":
                 pass
+            elif k == "i":          # <%include>: the target's chain, base-most body first, no arguments, in place
+                if not (1 <= n["t"] <= len(self.lib)):
+                    raise OErr("lookup")
+                out += Rules(self.lib[n["t"] - 1], lib=self.lib, shared=self).render_included(depth)
             elif k == "x":          # the callee writes caller.body() once: the content, in the caller's scope
                 out += self.run(i, n["kids"], bound, extra, depth + 1)
             elif k == "a":
@@ -589,6 +628,14 @@ class Rules:
                 elif self.from_(i + 1, n["n"]) is None:          # base-most template declaring it
                     out += self.call(0, n["n"], [], list(extra or ()), depth)
         return out
+
+    def render_included(self, depth):
+        for l in self.levels:
+            if rules_compile_fault(l["nodes"]):
+                raise OErr("compile")
+        if self.missing_target:
+            raise OErr("lookup")
+        return self.call(self.m, "body", [], [], depth + 1)
 
     def render(self):
         for l in self.levels:
@@ -628,10 +675,40 @@ class Gen:
             n["nl"] = True
         return n
 
-    def chain(self, hazards=False, faults=False, wild=0.05, fb=0):
+    def chain_with_lib(self, **kw):
+        """a main chain plus 1-2 further chains (same member-name pool, no <%page args>) that templates of the main
+        chain - and of earlier library chains - <%include>; include nodes are planted in bodies, blocks and defs"""
         rng = self.rng
         self.tag = 0
-        nlev = rng.choice([1, 2, 2, 3, 3, 3, 4, 4, 5])
+        lib = []
+        for _ in range(rng.randint(1, 2)):
+            c = self.chain(wild=kw.get("wild", 0.05), fb=kw.get("fb", 0), keep_tags=True, maxlev=3, nosig=True)
+            c = spread_lines(c)
+            lib.append({"levels": c["levels"]})
+        main = self.chain(keep_tags=True, **kw)
+        main["lib"] = lib
+
+        def plant(levels, targets):
+            for _ in range(rng.randint(1, 3)):
+                lv = rng.choice(levels)
+                holders = [lv["nodes"]] + [n["kids"] for n in lv["nodes"] if "kids" in n]
+                h = rng.choice(holders)
+                h.insert(rng.randint(0, len(h)), {"k": "i", "t": rng.choice(targets)})
+        eff = 1
+        while eff <= len(main["levels"]) and main["levels"][eff - 1]["inh"] in ("S", "D"):
+            eff += 1
+        plant(main["levels"][:eff], list(range(1, len(lib) + 1)))
+        if len(lib) == 2 and rng.random() < 0.5:
+            plant(lib[0]["levels"], [2])
+        if rng.random() < kw.get("wild", 0.05):
+            main["levels"][0]["nodes"].append({"k": "i", "t": len(lib) + 1})     # a template that does not exist
+        return main
+
+    def chain(self, hazards=False, faults=False, wild=0.05, fb=0, keep_tags=False, maxlev=5, nosig=False):
+        rng = self.rng
+        if not keep_tags:
+            self.tag = 0
+        nlev = min(maxlev, rng.choice([1, 2, 2, 3, 3, 3, 4, 4, 5]))
         pool = list(POOL[:rng.randint(2, 5)])
         if hazards:
             pool += rng.sample(HAZARD, rng.randint(1, 2))
@@ -664,7 +741,7 @@ class Gen:
                   "sig": [], "attrs": [], "nodes": []}
             if lv["inh"] == "Z":
                 lv["form"] = rng.randint(0, 2)
-            if rng.random() < 0.35:
+            if rng.random() < 0.35 and not nosig:
                 for p in PARAMS[:rng.randint(1, 2)]:
                     lv["sig"].append([p, None if rng.random() < 0.25 else rng.randint(1, 9)])
                 if len(lv["sig"]) == 2 and lv["sig"][0][1] is not None and lv["sig"][1][1] is None:
@@ -1075,6 +1152,34 @@ def shrink_case(case, fails, max_tests=250):
                             break
                     if changed:
                         break
+        # simplify the included chains: drop trailing templates, empty a template
+        for k in range(len(cur.get("lib", []))):
+            for li in range(len(cur["lib"][k]["levels"]) - 1, -1, -1):
+                c = copy.deepcopy(cur)
+                lvls = c["lib"][k]["levels"]
+                if li > 0:
+                    del lvls[li:]
+                    lvls[-1]["inh"] = "N"
+                else:
+                    if not lvls[0]["nodes"]:
+                        continue
+                    lvls[0]["nodes"] = []
+                if ok(c):
+                    cur, progress = c, True
+                    break
+            for li in range(len(cur["lib"][k]["levels"])):
+                changed = True
+                while changed and tests[0] < max_tests:
+                    changed = False
+                    for path in sorted(node_paths(cur["lib"][k]["levels"][li]["nodes"]), key=lambda p: -len(p)):
+                        c = copy.deepcopy(cur)
+                        try:
+                            remove_at(c["lib"][k]["levels"][li]["nodes"], path, False)
+                        except Exception:
+                            continue
+                        if ok(c):
+                            cur, progress, changed = c, True, True
+                            break
         # drop call arguments
         c = copy.deepcopy(cur)
         strip_args(c)
@@ -1233,7 +1338,10 @@ def public(case):
     """what goes into a replay / finding: the sources and the data, plus the structured case"""
     c = copy.deepcopy(case)
     srcs = sources(c)
-    return {"input": "\n---\n".join("%s: %s" % (uri_of(i, c.get("fb")), s) for i, s in enumerate(srcs)),
+    parts = ["%s: %s" % (uri_of(i, c.get("fb")), s) for i, s in enumerate(srcs)]
+    for sc_ in subcases(c):
+        parts += ["%s: %s" % (uri_of(i, c.get("fb"), sc_["pre"]), s) for i, s in enumerate(sources(sc_))]
+    return {"input": "\n---\n".join(parts),
             "data": c.get("data", []), "case": c}
 
 
@@ -1260,7 +1368,10 @@ def corr_and_oracle_render(ctx, impl, gen, n, label, **kw):
     drv = ctx.driver()
     cases, wants = [], []
     while len(cases) < n:
-        c = gen.chain(**kw)
+        # a third of the cases <%include> further chains of the same lookup
+        c = gen.chain_with_lib(**kw) if gen.rng.random() < 0.33 else gen.chain(**kw)
+        if c.get("lib"):
+            ctx.branch("with-includes")
         try:
             w = oracle_render(c)          # the rules first: explosive cases (output > budget) are dropped
         except Discard:
@@ -1580,8 +1691,7 @@ def replay(ctx, data):
             return not check_differs(t)
         if isinstance(case, dict) and "case" in case:
             c = case["case"]
-            for i, s in enumerate(sources(c)):
-                print("%s: %r" % (uri_of(i, c.get("fb")), s))
+            print(public(c)["input"])
             print("data    :", c.get("data"))
             real = impl.render(c)
             print("mako    :", real)
